@@ -215,6 +215,16 @@ class EngineAI:
         outs = it.run()
         return it, outs
 
+    @classmethod
+    def shared(cls, src):
+        """one interpretation per SourceSet (several properties of one run share it)"""
+        ai = src.__dict__.get('_shared_ai')
+        if ai is None:
+            ai = cls(src)
+            ai.run_all()
+            src.__dict__['_shared_ai'] = ai
+        return ai
+
     def run_all(self):
         res = {}
         for h in self.m.handlers:
